@@ -3,6 +3,7 @@ CONSTANTS
   MaxFlow = 0
   MaxOuts = 3
   MaxPuts = 1
+  MaxReconf = 0
   Tier = "hub"
 CONSTRAINT Emit
 INVARIANT HubAllButSender
